@@ -87,9 +87,13 @@ def run(ctx: Ctx) -> None:
     bad = []
     undecided = None
     n_cases = 0
-    classic_calls = [c for c in calls_in(cc.node) if call_name(c) == "_check_classical_args"]
+    # the "are all arguments classical?" helper is found by what it does (a non-visitor method that asks contain_qubit_ty), not by name
+    _cands = [m for nm, m in checker.methods.items() if not nm.startswith("visit") and nm != cc.node.name
+              and any(call_name(c) == "contain_qubit_ty" for c in calls_in(m.node))]
+    CLASSIFIER = _cands[0].node.name if _cands else "_check_classical_args"
+    classic_calls = [c for c in calls_in(cc.node) if call_name(c) == CLASSIFIER]
     if len(classic_calls) != 1 or len(params) < 3:
-        ctx.undecided("R-C24.2", f"{cc.qualname}#acceptance-table", cc.where, "no single _check_classical_args call / unexpected signature")
+        ctx.undecided("R-C24.2", f"{cc.qualname}#acceptance-table", cc.where, f"no single {CLASSIFIER} call / unexpected signature")
     else:
         ckey = ast.unparse(classic_calls[0])
         typaram = params[2]
@@ -114,9 +118,9 @@ def run(ctx: Ctx) -> None:
                       {"cases": n_cases, "flag_bits": dom.members, "counterexamples": bad[:4], "n_counterexamples": len(bad)},
                       "a qubit call is accepted although the callee lacks a flag the context requires (or rejected although it has them all)")
     # the classical-argument helper reports "classic" only if no argument contains a qubit
-    ca = checker.methods.get("_check_classical_args")
+    ca = checker.methods.get(CLASSIFIER)
     if ca is None:
-        raise AnalysisError("_check_classical_args vanished")
+        raise AnalysisError("the argument classifier of the unitary checker (a helper calling contain_qubit_ty) vanished")
     # evaluated on every argument list of length 0..3 with every qubit/classical assignment:
     # result == "no argument holds a qubit", and every argument is visited
     import itertools as _it
@@ -243,9 +247,25 @@ def run(ctx: Ctx) -> None:
                   "the dagger restrictions are skipped for some flag set that contains Dagger")
     kinds_fn = _under_dagger_kinds(cid.node)
     assign_kinds = set()
-    for n in ast.walk(cid.node):
-        if isinstance(n, ast.Call) and dotted(n.func) == "isinstance" and len(n.args) == 2:
-            assign_kinds |= {d.split(".")[-1] for d in _union_names(n.args[1])}
+    # the node kinds may be spelled inline (`isinstance(n, ast.Assign | …)`), in a module-level constant, or in a helper
+    # predicate: follow module-level names referenced from the function (two levels)
+    scope_nodes: list[ast.AST] = [cid.node]
+    seen_names: set[str] = set()
+    for _ in range(2):
+        for sn in list(scope_nodes):
+            for nm in ast.walk(sn):
+                if isinstance(nm, ast.Name) and nm.id not in seen_names:
+                    seen_names.add(nm.id)
+                    for st_ in cid.module.tree.body:
+                        if isinstance(st_, ast.FunctionDef) and st_.name == nm.id:
+                            scope_nodes.append(st_)
+                        tg_ = st_.targets[0] if isinstance(st_, ast.Assign) and len(st_.targets) == 1 else (st_.target if isinstance(st_, ast.AnnAssign) else None)
+                        if isinstance(tg_, ast.Name) and tg_.id == nm.id and getattr(st_, "value", None) is not None:
+                            scope_nodes.append(st_.value)
+    for sn in scope_nodes:
+        for n in ast.walk(sn):
+            if isinstance(n, ast.Attribute) and isinstance(n.value, ast.Name) and n.value.id == "ast" and n.attr in ("Assign", "AnnAssign", "AugAssign"):
+                assign_kinds.add(n.attr)
     uses_loop = any(call_name(c) == "loop_in_ast" for c in calls_in(cid.node))
     ctx.check(kinds_fn >= {"Loop", "Assignment"} and assign_kinds >= {"Assign", "AnnAssign", "AugAssign"} and uses_loop, "R-C24.4",
               f"{cid.qualname}#rejects-loops-and-assignments", cid.where,
